@@ -4,7 +4,7 @@
    declarations of Gen/Convert.v.  Bytes that are not JSON at all are rejected by encoding/json's
    scanner before any generated code runs (trusted, exercised by the byte-mutation stream). *)
 From Verif Require Import Base.Str Gen.Consts Gen.Gql Gen.Directive Gen.Convert Rt.JsonDecode Proofs.JsonProofs
-  Proofs.FuelProofs Proofs.ShapeProofs.
+  Proofs.FuelProofs Proofs.ShapeProofs Proofs.RoundTrip Proofs.TermProofs.
 
 (* for EVERY typemap, type, JSON value and depth: the decoders return a value or an error *)
 Theorem C19_no_panic :
@@ -108,3 +108,12 @@ Theorem C19_never_mistyped :
   decode tm true fuel t j cur = Ok v -> shape_ok tm t cur -> shape_ok tm t v.
 Proof. exact decode_shape. Qed.
 Print Assumptions C19_never_mistyped.
+
+(* fuel is a bound on the nesting of the TYPE, not on the size of the input: for the wrapper
+   algebra of leaf types (slices at any depth, optional pointer, scalar-like leaf) decoding any
+   JSON value, however large or deep, is defined as soon as the fuel exceeds the type's depth *)
+Theorem C19_leaf_types_never_run_out_of_fuel :
+  forall tm w t fuel j cur,
+  wrapper_type tm t = true -> (tdepth t < fuel)%nat -> defined (decode tm w fuel t j cur).
+Proof. exact wrapper_decode_terminates. Qed.
+Print Assumptions C19_leaf_types_never_run_out_of_fuel.
